@@ -101,3 +101,12 @@ Definition c12_router_mismatch (k : c12_router_case) : bool :=
         && list_eqb (list_eqb N.eqb) (publishes tr) (rk_published k)).
 Definition c12_router_mismatches (cs : list c12_router_case) : list nat :=
   positions (map c12_router_mismatch cs).
+
+(** the errors the scripted LoggerAdapter was handed, in order, against the model's [log_errs] *)
+Record c12_log_case := C12L { lk_case : c12_case; lk_errs : list N }.
+Definition c12_log_mismatch (k : c12_log_case) : bool :=
+  let c := k_cfg (lk_case k) in
+  let h := script_fn (k_script (lk_case k)) in
+  let r := retry c h (mk_env c (k_obs (lk_case k))) in
+  negb (list_eqb N.eqb (log_errs h (r_trace r)) (lk_errs k)).
+Definition c12_log_mismatches (cs : list c12_log_case) : list nat := positions (map c12_log_mismatch cs).
